@@ -23,7 +23,8 @@ ENGINE = "hypothesis"
 TECHNIQUE = "property-based round-trip testing (dump / print_config / save -> parse) over generated typed parsers and look-alike strings"
 LEVEL_TEXT = ("Thousands of generated (parser, accepted configuration) pairs per run; each configuration is serialised in every dump "
               "format, through --print_config and through save, parsed back with the same parser and compared type for type. "
-              "Strings are aimed at every YAML 1.1/1.2 implicit-resolver regex. Exploration only: the type grammar and value sizes bound it.")
+              "Strings are aimed at every YAML 1.1/1.2 implicit-resolver regex. One case in six comes from the argument-kinds family "
+              "(positionals, nargs, yes/no flags, Callable / Type hints, choices; DESIGN 3.3b). Exploration only: the grammars and value sizes bound it.")
 LEVEL_NOTE = ("Trusted: typed_eq/diff in vf/gen/types.py (self-tested). Known findings F2 (PyYAML is not a JSON superset for some code "
               "points), F3 (Infinity/NaN in json dumps) and F23 (quoted YAML-null look-alike under Optional[non-str]) are recorded in "
               "known_findings.json by narrow signatures; code points of F2 live in a separate, counted stratum.")
